@@ -15,6 +15,7 @@ import GambitV.Gen.PyCalcFiles
 import GambitV.Gen.PyMetric
 import GambitV.Gen.PyBulk
 import GambitV.Gen.PyConcat
+import GambitV.Gen.PyCalcSig
 import GambitV.Model.Bulk
 import GambitV.Model.Indexing
 import GambitV.Spec.Taxonomy
@@ -195,5 +196,11 @@ def concatIndex (sigs : List (List Nat)) (ix : GambitV.Index) : Option String :=
       cmp "AdvancedIndexingMixin._getitem_bool_array" Gen.mixin_getitem_bool_array.untranslatable (show' (Gen.mixin_getitem_bool_array V B m)) model
     else none
   | _ => none
+
+/-- `calc_signature` (default accumulator) on a list of sequences: the definition generated from the current sources of `calc_signature`,
+`accumulate_kmers`, `KmerMatch.kmer_index`, `find_kmers`, … against the real signature -/
+def calcSignature (k : Nat) (pre : List UInt8) (seqs : List (List UInt8)) (real : String) : Option String :=
+  cmp "calc_signature" Gen.calc_signature.untranslatable
+    (resStr (fun (l : List Int) => natsOf (l.map Int.toNat)) (Gen.calc_signature { k := (k : Int), pre := pre } seqs none)) real
 
 end Driver.PyGen
